@@ -42,7 +42,13 @@ class Config(object):
             # update config - current attrs updated with defined config file attrs
             # re __init__ to avoid applying invalid keys
             config_update = copy.deepcopy(vars(self))
-            config_update.update(config_file_dict)
+            config_update.update(
+                {
+                    key: value
+                    for key, value in config_file_dict.items()
+                    if key in config_update
+                }
+            )
             self.__init__(**config_update)
 
     def update(self, **kwargs):
